@@ -81,6 +81,8 @@ Definition run_C17 (case obs : sx) : sx :=
         SL [match peerid_unmarshal b with Some id => SL [sym "ok"; SB id] | None => SL [sym "err"] end;
             match obs with
             | SL [_; SB id] => if bytes_eqb (peerid_marshal id) b then ok else bad "non-canonical-peerid-text-accepted"
+            | SL [e] => if is_sym "err-but-receiver-changed" e then bad "rejected-text-overwrote-the-receiving-PeerID"
+                        else if is_sym "panic" e then bad "panic" else ok
             | _ => ok end]
       else bad_case
   | SL [t; SB a; SB b] =>
